@@ -15,7 +15,7 @@ RULE = (
     "cases = (decode) arbitrary byte strings and, mainly, SD payloads/messages from the independent (also non-canonical) "
     "encoder subjected to a mutation script (bit flips, byte sets, truncation, insertion, duplication, targeted rewrites "
     "of every length/count/index/type field, the options array cut at an exact option boundary, non-ASCII bytes inside configuration strings, strings that start with '='), handed to every decoder "
-    "(SOME/IP message, SD message, SD entry, SD option, every registered parse_option); (live) the same byte strings "
+    "(SOME/IP message from a datagram and from a byte stream, SD message, SD entry, SD option, every registered parse_option); (live) the same byte strings "
     "delivered as datagrams, unicast and multicast, at generated positions into a running discovery endpoint with "
     "watched/found services, an announced instance with subscriptions and a pending auto-subscription, and into a "
     "SimpleService endpoint: twin runs with the junk and with only its accepted projection must give identical "
@@ -239,8 +239,52 @@ def run_decode(spec):
                 for b in (body, body[:5], body[:9], body[:21], body[:2]):
                     _total(lambda: cls.parse_option(b), b, f"{cls.__name__}.parse_option",
                            t == wire.OPT_CONFIG and cfg_nonascii_in_option(b))
+    # the stream decoder (SOMEIPHeader.read / SOMEIPReader.read) on the same bytes, fed whole and in two chunks
+    for api in (0, 1):
+        for cut in (None, min(len(data), 9)):
+            out4 = _stream(data, api, cut)
+            if api == 0 and cut is None:
+                labels.append(f"stream={out4}")
     mutated = bool(spec.get("mut")) or spec["kind"] == "arb"
     return ok(mutated and (reached or spec["kind"] == "arb"), ["kind=decode"] + labels)
+
+
+def _stream(data, api, cut):
+    """reads messages from a byte stream until it ends; permitted: messages, then ParseError / an incomplete-read error / None"""
+    import asyncio
+    res = []
+    with Sim() as sim:
+        reader = asyncio.StreamReader()
+        wrapped = hdr.SOMEIPReader(reader)
+
+        async def consume():
+            for _ in range(64):
+                try:
+                    m = await (wrapped.read() if api else hdr.SOMEIPHeader.read(reader))
+                except hdr.ParseError:      # IncompleteReadError is a ParseError
+                    return "ParseError"
+                except asyncio.IncompleteReadError:
+                    return "incomplete"
+                if m is None:
+                    return "none"
+                require(isinstance(m, hdr.SOMEIPHeader), "C03.decoder-type", "stream reader")
+            return "many"
+
+        task = asyncio.ensure_future(consume())
+        if cut:
+            reader.feed_data(bytes(data[:cut]))
+            sim.settle()
+            reader.feed_data(bytes(data[cut:]))
+        elif data:
+            reader.feed_data(bytes(data))
+        reader.feed_eof()
+        sim.settle()
+        require(task.done(), "C03.decoder-hangs", lambda: f"stream reader still pending after end of stream; input {bytes(data)[:64].hex()}")
+        if task.exception() is not None:
+            e = task.exception()
+            require(False, "C03.decoder-exception", f"stream reader (api {api}): {type(e).__name__}: {e}; input {bytes(data)[:64].hex()} (len {len(data)})")
+        res.append(task.result())
+    return res[0]
 
 
 # --------------------------------------------------------------------------- live
